@@ -3,58 +3,8 @@
    occurrence of the delimiter in  carried-prefix ++ chunk[base:]  and otherwise
    carries the longest partial match.  Holds for every delimiter in which its
    first byte does not occur again (CRLF--B with CR not in B). *)
-From Verif Require Import lib.Base lib.ListX lib.Str model.MultipartRef model.Multipart proofs.C06_pattern.
+From Verif Require Import lib.Base lib.ListX lib.Str model.MultipartRef model.Multipart proofs.C06_pattern proofs.C06_dres.
 Require Import Lia Sorted.
-
-(* ---------------------------------------------------------------- list helpers *)
-
-Lemma slice_0 {A} (s : list A) j : slice s 0 j = firstn j s.
-Proof. unfold slice. now rewrite Nat.sub_0_r. Qed.
-
-Lemma slice_skipn {A} (s : list A) i j : slice s i j = firstn (j - i) (skipn i s).
-Proof. reflexivity. Qed.
-
-Lemma nth_error_skipn {A} (s : list A) i d : nth_error (skipn i s) d = nth_error s (i + d).
-Proof.
-  revert s; induction i as [|i IH]; intros s; simpl; [reflexivity|].
-  destruct s; simpl; [now destruct d | apply IH].
-Qed.
-
-Lemma nth_error_firstn {A} (s : list A) k d :
-  nth_error (firstn k s) d = if d <? k then nth_error s d else None.
-Proof.
-  revert s d; induction k as [|k IH]; intros s d; simpl.
-  - now destruct d.
-  - destruct s as [|x s]; simpl.
-    + destruct (d <? S k); destruct d; reflexivity.
-    + destruct d; [reflexivity|]. cbn [nth_error]. rewrite IH. reflexivity.
-Qed.
-
-Lemma compat_nth t x d :
-  compat t x = true -> d < length t -> d < length x -> nth_error x d = nth_error t d.
-Proof.
-  revert x d; induction t as [|a t IH]; intros [|b x] d H Lt Lx; simpl in *; try lia.
-  apply andb_true_iff in H. destruct H as [E H]. apply N.eqb_eq in E. subst b.
-  destruct d; simpl; [reflexivity | apply IH; [exact H | lia | lia]].
-Qed.
-
-Lemma str_eqb_prefixb_firstn r s :
-  length r <= length s -> str_eqb (firstn (length r) s) r = prefixb r s.
-Proof.
-  intros L. destruct (prefixb r s) eqn:E.
-  - apply prefixb_firstn in E. rewrite E. apply str_eqb_refl.
-  - destruct (str_eqb_spec (firstn (length r) s) r) as [H|H]; [|reflexivity].
-    apply prefixb_firstn in H. congruence.
-Qed.
-
-Lemma slice_suffix {A} (s : list A) start end_ i :
-  i <= end_ - start ->
-  slice s (start + (end_ - start - i)) end_ = skipn (end_ - start - i) (slice s start end_).
-Proof.
-  intros Hi. unfold slice.
-  replace (end_ - start) with ((end_ - start - i) + (end_ - (start + (end_ - start - i)))) at 2 by lia.
-  rewrite <- firstn_skipn_comm. now rewrite skipn_skipn.
-Qed.
 
 Section Tok.
 Variable tok : bytes.
@@ -192,7 +142,7 @@ Proof.
   destruct (nth_error s (end_ - 1)) as [c|] eqn:Ec.
   2:{ apply nth_error_None in Ec. lia. }
   assert (Hlast : nth_error w (length w - 1) = Some c).
-  { unfold w, slice. rewrite Lw. rewrite nth_error_firstn.
+  { rewrite Lw. unfold w, slice. rewrite nth_error_firstn.
     destruct (Nat.ltb_spec (end_ - start - 1) (end_ - start)); [|lia].
     rewrite nth_error_skipn. replace (start + (end_ - start - 1)) with (end_ - 1) by lia. exact Ec. }
   assert (Hsome : forall i, In i (idxs tok c) -> i <= end_ - start ->
@@ -225,111 +175,43 @@ Proof.
         rewrite Hw in H. rewrite nth_error_firstn in H.
         destruct (Nat.ltb_spec (i - 1) i); [exact H | unfold i in *; lia]. }
       pose proof (mt_loop_none s start end_ _ (idxs_from_sorted c tok 1) Em i Hin ltac:(unfold i; lia)) as HP.
-      rewrite Hsl in HP by (unfold i; lia).
+      cbv beta zeta in HP. rewrite Hsl in HP by (unfold i; lia).
       replace (length w - i) with p in HP by (unfold i; lia).
       rewrite Hw, str_eqb_refl in HP. discriminate. }
   rewrite <- Hmt. destruct (idxs tok c) eqn:Ei; [reflexivity | reflexivity].
 Qed.
 
-(* ---------------------------------------------------------------- the search result as a function of fcp *)
+(* ---------------------------------------------------------------- instances of C06_dres for tok *)
+Local Notation dres := (C06_dres.dres tok).
+Local Notation tr_of := (C06_dres.tr_of tok).
+Local Notation dspec := (C06_dres.dspec tok).
 
-(* off = absolute position (in chunk coordinates, possibly negative) of D[0] *)
-Definition dres (off : Z) (D : bytes) : eres * option bytes :=
-  match fcp tok D with
-  | Some p => if p + n <=? length D then (EFound (off + Z.of_nat p)%Z, None)
-              else (ENone, Some (skipn (length D - p) tok))
-  | None => (ENone, None)
-  end.
-
-Definition tr_of (m : nat) : option bytes := if m =? 0 then None else Some (skipn m tok).
-
-Lemma fcp_firstn_tok m : 0 < m -> fcp tok (firstn m tok) = Some 0.
-Proof.
-  intros Hm. apply fcp_intro.
-  - rewrite firstn_length. pose proof n_pos. fold n. lia.
-  - simpl. apply compat_firstn.
-  - intros j Hj; lia.
-Qed.
-
-(* K3: the carried prefix is continued by c *)
 Lemma dres_hit off m c :
   0 < m -> m < n -> compat (skipn m tok) c = true ->
   dres off (firstn m tok ++ c) =
   if n <=? m + length c then (EFound off, None) else (ENone, Some (skipn (m + length c) tok)).
-Proof.
-  intros Hm Hn Hc. unfold dres. rewrite fcp_app_tok. unfold resume.
-  rewrite fcp_firstn_tok by exact Hm. rewrite firstn_length. fold n.
-  rewrite Nat.min_l by lia.
-  destruct (Nat.leb_spec (0 + n) m); [lia|].
-  rewrite Nat.sub_0_r, Hc. rewrite app_length, firstn_length. fold n. rewrite Nat.min_l by lia.
-  simpl (0 + n). destruct (n <=? m + length c); [|now rewrite Nat.sub_0_r].
-  f_equal. f_equal. lia.
-Qed.
+Proof. exact (C06_dres.dres_hit tok Hres_tok n_pos off m c). Qed.
 
-(* K2: the carried prefix is broken by c *)
 Lemma dres_broken off m c :
   0 < m -> m < n -> compat (skipn m tok) c = false ->
   dres off (firstn m tok ++ c) = dres (off + Z.of_nat m) c.
-Proof.
-  intros Hm Hn Hc. unfold dres. rewrite fcp_app_tok. unfold resume.
-  rewrite fcp_firstn_tok by exact Hm. rewrite firstn_length. fold n.
-  rewrite Nat.min_l by lia.
-  destruct (Nat.leb_spec (0 + n) m); [lia|].
-  rewrite Nat.sub_0_r, Hc. rewrite app_length, firstn_length. fold n. rewrite Nat.min_l by lia.
-  destruct (fcp tok c) as [q|]; simpl; [|reflexivity].
-  destruct (Nat.leb_spec (m + q + n) (m + length c)), (Nat.leb_spec (q + n) (length c)); try lia.
-  - f_equal. f_equal. lia.
-  - do 3 f_equal. lia.
-Qed.
+Proof. exact (C06_dres.dres_broken tok Hres_tok n_pos off m c). Qed.
 
-(* K: a stretch X without a complete occurrence is summarised by its carry *)
 Lemma dres_carry off X c p :
   fcp tok X = Some p -> length X < p + n ->
   dres off (X ++ c) = dres (off + Z.of_nat p) (firstn (length X - p) tok ++ c).
-Proof.
-  intros Ep Hp. destruct (fcp_some _ _ _ Ep) as (P1 & _ & _).
-  set (k := length X - p).
-  assert (Hk : 0 < k /\ k < n) by (unfold k; lia).
-  destruct (compat (skipn k tok) c) eqn:Ec.
-  - rewrite dres_hit by (try exact Ec; lia).
-    unfold dres. rewrite fcp_app_tok. unfold resume. rewrite Ep. fold n.
-    destruct (Nat.leb_spec (p + n) (length X)); [lia|]. fold k. rewrite Ec.
-    rewrite app_length.
-    destruct (Nat.leb_spec (p + n) (length X + length c)), (Nat.leb_spec n (k + length c)); try (unfold k in *; lia).
-    + reflexivity.
-    + do 3 f_equal. unfold k. lia.
-  - rewrite dres_broken by (try exact Ec; lia).
-    unfold dres at 1. rewrite fcp_app_tok. unfold resume. rewrite Ep. fold n.
-    destruct (Nat.leb_spec (p + n) (length X)); [lia|]. fold k. rewrite Ec.
-    unfold dres. rewrite app_length.
-    destruct (fcp tok c) as [q|]; simpl; [|reflexivity].
-    destruct (Nat.leb_spec (length X + q + n) (length X + length c)), (Nat.leb_spec (q + n) (length c)); try lia.
-    + f_equal. f_equal. unfold k. lia.
-    + do 3 f_equal. lia.
-Qed.
+Proof. exact (C06_dres.dres_carry tok Hres_tok n_pos off X c p). Qed.
 
 Lemma dres_nocarry off X c :
   fcp tok X = None -> dres off (X ++ c) = dres (off + Z.of_nat (length X)) c.
-Proof.
-  intros Ep. unfold dres. rewrite fcp_app_tok. unfold resume. rewrite Ep. rewrite app_length.
-  destruct (fcp tok c) as [q|]; simpl; [|reflexivity].
-  destruct (Nat.leb_spec (length X + q + n) (length X + length c)), (Nat.leb_spec (q + n) (length c)); try lia.
-  - f_equal. f_equal. lia.
-  - do 3 f_equal. lia.
-Qed.
+Proof. exact (C06_dres.dres_nocarry tok Hres_tok n_pos off X c). Qed.
 
 Lemma dres_found off X c :
   fcp tok X = Some 0 -> n <= length X -> dres off (X ++ c) = (EFound off, None).
-Proof.
-  intros Ep Hn. unfold dres. rewrite fcp_app_tok. unfold resume. rewrite Ep. fold n.
-  destruct (Nat.leb_spec (0 + n) (length X)); [|lia]. rewrite app_length.
-  destruct (Nat.leb_spec (0 + n) (length X + length c)); [|lia].
-  f_equal. f_equal. lia.
-Qed.
+Proof. exact (C06_dres.dres_found tok Hres_tok n_pos off X c). Qed.
 
-(* the spec of one call: carried prefix of length m (0 = none), remaining bytes rest *)
-Definition dspec (base m : nat) (rest : bytes) : eres * option bytes :=
-  dres (Z.of_nat base - Z.of_nat m) (firstn m tok ++ rest).
+Lemma fcp_firstn_tok m : 0 < m -> fcp tok (firstn m tok) = Some 0.
+Proof. exact (C06_dres.fcp_firstn_t tok n_pos m). Qed.
 
 (* ---------------------------------------------------------------- tail_part *)
 
@@ -352,7 +234,7 @@ Lemma tail_nocarry (part : bytes) (start : nat) :
   end = dres (Z.of_nat start) part.
 Proof.
   intros Hne Hl. rewrite match_tail_whole by (try exact Hne; lia).
-  unfold dres. destruct (fcp tok part) as [p|] eqn:Ep; simpl; [|reflexivity].
+  unfold C06_dres.dres. fold n. destruct (fcp tok part) as [p|] eqn:Ep; simpl; [|reflexivity].
   destruct (Nat.leb_spec (p + n) (length part)); [lia | reflexivity].
 Qed.
 
@@ -360,20 +242,20 @@ Lemma tail_part_spec chunk start m :
   m < n -> length chunk < start + n ->
   tail_part tok chunk start (tr_of m) = dspec start m (skipn start chunk).
 Proof.
-  intros Hm Hl. unfold tail_part, dspec. fold n.
+  intros Hm Hl. unfold tail_part, C06_dres.dspec. fold n.
   set (part := skipn start chunk).
   assert (Lp : length part < n) by (unfold part; rewrite skipn_length; lia).
   destruct part as [|b part'] eqn:Epart.
   - (* empty tail *)
-    rewrite app_nil_r. unfold tr_of, dres. destruct (Nat.eqb_spec m 0) as [->|Hm0].
+    rewrite app_nil_r. unfold C06_dres.tr_of, C06_dres.dres. fold n. destruct (Nat.eqb_spec m 0) as [->|Hm0].
     + reflexivity.
     + rewrite fcp_firstn_tok by lia. rewrite firstn_length. fold n. rewrite Nat.min_l by lia.
       destruct (Nat.leb_spec (0 + n) m); [lia|]. now rewrite Nat.sub_0_r.
   - rewrite <- Epart in *. assert (Hne : part <> []) by (rewrite Epart; discriminate).
     clear Epart b part'.
-    unfold tr_of. destruct (Nat.eqb_spec m 0) as [->|Hm0].
+    unfold C06_dres.tr_of. destruct (Nat.eqb_spec m 0) as [->|Hm0].
     + (* trest None *)
-      simpl firstn. simpl app. rewrite (tail_nocarry part start Hne Lp). f_equal. lia.
+      simpl firstn. simpl app. etransitivity; [exact (tail_nocarry part start Hne Lp) | f_equal; lia].
     + assert (Lr : length (skipn m tok) = n - m) by (rewrite skipn_length; reflexivity).
       rewrite Lr.
       destruct (Nat.ltb_spec (length part) (n - m)) as [Ls|Ls].
@@ -384,14 +266,14 @@ Proof.
            destruct (Nat.leb_spec n (m + length part)); [lia|].
            now rewrite skipn_skipn.
         -- rewrite dres_broken by (try exact Ec; lia).
-           rewrite (tail_nocarry part start Hne Lp). f_equal. lia.
+           etransitivity; [exact (tail_nocarry part start Hne Lp) | f_equal; lia].
       * rewrite <- compat_long by lia.
         destruct (compat (skipn m tok) part) eqn:Ec.
         -- rewrite dres_hit by (try exact Ec; lia).
            destruct (Nat.leb_spec n (m + length part)); [|lia].
            f_equal. f_equal. lia.
         -- rewrite dres_broken by (try exact Ec; lia).
-           rewrite (tail_nocarry part start Hne Lp). f_equal. lia.
+           etransitivity; [exact (tail_nocarry part start Hne Lp) | f_equal; lia].
 Qed.
 
 (* ---------------------------------------------------------------- the block loop *)
@@ -430,22 +312,22 @@ Proof.
         + assert (p = 0) by lia. subst p.
           rewrite Hrest. now rewrite dres_found by (try exact Ep; lia).
         + assert (Htr : Some (skipn (n - p) tok) = tr_of (n - p)).
-          { unfold tr_of. destruct (Nat.eqb_spec (n - p) 0); [lia | reflexivity]. }
+          { unfold C06_dres.tr_of. destruct (Nat.eqb_spec (n - p) 0); [lia | reflexivity]. }
           rewrite Htr, IH by lia.
           rewrite Hrest, (dres_carry _ w rest' p Ep) by lia.
-          unfold dspec. fold rest'. rewrite Lw. f_equal. lia.
+          unfold C06_dres.dspec. fold rest'. rewrite Lw. f_equal. lia.
       - change (@None bytes) with (tr_of 0). rewrite IH by lia.
-        rewrite Hrest, (dres_nocarry _ w rest' Ep). unfold dspec. fold rest'. simpl. rewrite Lw.
+        rewrite Hrest, (dres_nocarry _ w rest' Ep). unfold C06_dres.dspec. fold rest'. simpl. rewrite Lw.
         f_equal. lia. }
-    unfold tr_of at 1 2. destruct (Nat.eqb_spec m 0) as [->|Hm0].
+    unfold C06_dres.tr_of at 1 2. destruct (Nat.eqb_spec m 0) as [->|Hm0].
     + (* no trest *)
-      cbv iota. unfold dspec. simpl. rewrite Z.sub_0_r. exact Hblock.
+      cbv iota. unfold C06_dres.dspec. simpl. rewrite Z.sub_0_r. exact Hblock.
     + assert (Lsk : length (skipn m tok) = n - m) by (rewrite skipn_length; reflexivity).
       rewrite Lsk.
       assert (Hhit : str_eqb (slice chunk start (start + (n - m))) (skipn m tok) = compat (skipn m tok) rest).
       { unfold slice. replace (start + (n - m) - start) with (length (skipn m tok)) by lia.
         fold rest. rewrite str_eqb_prefixb_firstn by lia. symmetry. apply compat_long. lia. }
-      rewrite Hhit. unfold dspec. fold rest.
+      rewrite Hhit. unfold C06_dres.dspec. fold rest.
       destruct (compat (skipn m tok) rest) eqn:Ec.
       * rewrite dres_hit by (try exact Ec; lia).
         destruct (Nat.leb_spec n (m + length rest)); [|lia]. f_equal. f_equal. lia.
